@@ -236,3 +236,108 @@ func (x *Pointer[T]) CompareAndSwap(o, n *T) bool {
 	pt("atomic.Pointer.CompareAndSwap", unsafe.Pointer(x), true)
 	return x.v.CompareAndSwap(o, n)
 }
+
+// ---- the remaining functions and types of sync/atomic
+
+func SwapUint64(addr *uint64, v uint64) uint64 {
+	pt("atomic.SwapUint64", unsafe.Pointer(addr), true)
+	return atomic.SwapUint64(addr, v)
+}
+func SwapUintptr(addr *uintptr, v uintptr) uintptr {
+	pt("atomic.SwapUintptr", unsafe.Pointer(addr), true)
+	return atomic.SwapUintptr(addr, v)
+}
+func AddUintptr(addr *uintptr, d uintptr) uintptr {
+	pt("atomic.AddUintptr", unsafe.Pointer(addr), true)
+	return atomic.AddUintptr(addr, d)
+}
+func AndInt32(addr *int32, m int32) int32 {
+	pt("atomic.AndInt32", unsafe.Pointer(addr), true)
+	return atomic.AndInt32(addr, m)
+}
+func OrInt32(addr *int32, m int32) int32 {
+	pt("atomic.OrInt32", unsafe.Pointer(addr), true)
+	return atomic.OrInt32(addr, m)
+}
+func AndUint32(addr *uint32, m uint32) uint32 {
+	pt("atomic.AndUint32", unsafe.Pointer(addr), true)
+	return atomic.AndUint32(addr, m)
+}
+func OrUint32(addr *uint32, m uint32) uint32 {
+	pt("atomic.OrUint32", unsafe.Pointer(addr), true)
+	return atomic.OrUint32(addr, m)
+}
+func AndInt64(addr *int64, m int64) int64 {
+	pt("atomic.AndInt64", unsafe.Pointer(addr), true)
+	return atomic.AndInt64(addr, m)
+}
+func OrInt64(addr *int64, m int64) int64 {
+	pt("atomic.OrInt64", unsafe.Pointer(addr), true)
+	return atomic.OrInt64(addr, m)
+}
+func AndUint64(addr *uint64, m uint64) uint64 {
+	pt("atomic.AndUint64", unsafe.Pointer(addr), true)
+	return atomic.AndUint64(addr, m)
+}
+func OrUint64(addr *uint64, m uint64) uint64 {
+	pt("atomic.OrUint64", unsafe.Pointer(addr), true)
+	return atomic.OrUint64(addr, m)
+}
+func AndUintptr(addr *uintptr, m uintptr) uintptr {
+	pt("atomic.AndUintptr", unsafe.Pointer(addr), true)
+	return atomic.AndUintptr(addr, m)
+}
+func OrUintptr(addr *uintptr, m uintptr) uintptr {
+	pt("atomic.OrUintptr", unsafe.Pointer(addr), true)
+	return atomic.OrUintptr(addr, m)
+}
+
+type Uintptr struct{ v atomic.Uintptr }
+
+func (x *Uintptr) Load() uintptr {
+	pt("atomic.Uintptr.Load", unsafe.Pointer(x), false)
+	return x.v.Load()
+}
+func (x *Uintptr) Store(b uintptr) { pt("atomic.Uintptr.Store", unsafe.Pointer(x), true); x.v.Store(b) }
+func (x *Uintptr) Add(d uintptr) uintptr {
+	pt("atomic.Uintptr.Add", unsafe.Pointer(x), true)
+	return x.v.Add(d)
+}
+func (x *Uintptr) Swap(b uintptr) uintptr {
+	pt("atomic.Uintptr.Swap", unsafe.Pointer(x), true)
+	return x.v.Swap(b)
+}
+func (x *Uintptr) CompareAndSwap(o, n uintptr) bool {
+	pt("atomic.Uintptr.CompareAndSwap", unsafe.Pointer(x), true)
+	return x.v.CompareAndSwap(o, n)
+}
+func (x *Uint64) Swap(b uint64) uint64 {
+	pt("atomic.Uint64.Swap", unsafe.Pointer(x), true)
+	return x.v.Swap(b)
+}
+func (x *Int32) And(m int32) int32 {
+	pt("atomic.Int32.And", unsafe.Pointer(x), true)
+	return x.v.And(m)
+}
+func (x *Int32) Or(m int32) int32 { pt("atomic.Int32.Or", unsafe.Pointer(x), true); return x.v.Or(m) }
+func (x *Uint32) And(m uint32) uint32 {
+	pt("atomic.Uint32.And", unsafe.Pointer(x), true)
+	return x.v.And(m)
+}
+func (x *Uint32) Or(m uint32) uint32 {
+	pt("atomic.Uint32.Or", unsafe.Pointer(x), true)
+	return x.v.Or(m)
+}
+func (x *Int64) And(m int64) int64 {
+	pt("atomic.Int64.And", unsafe.Pointer(x), true)
+	return x.v.And(m)
+}
+func (x *Int64) Or(m int64) int64 { pt("atomic.Int64.Or", unsafe.Pointer(x), true); return x.v.Or(m) }
+func (x *Uint64) And(m uint64) uint64 {
+	pt("atomic.Uint64.And", unsafe.Pointer(x), true)
+	return x.v.And(m)
+}
+func (x *Uint64) Or(m uint64) uint64 {
+	pt("atomic.Uint64.Or", unsafe.Pointer(x), true)
+	return x.v.Or(m)
+}
